@@ -21,6 +21,39 @@ pub fn run_children(argvs: &[Vec<String>]) -> Vec<WorkerOut> {
 /// Same, but never more than `max_parallel` children alive at a time. Results are in input order.
 pub fn run_children_limited(argvs: &[Vec<String>], max_parallel: usize) -> Vec<WorkerOut> {
     let exe = std::env::current_exe().expect("current_exe");
+    let exes: Vec<std::path::PathBuf> = argvs.iter().map(|_| exe.clone()).collect();
+    run_children_exes(&exes, argvs, max_parallel)
+}
+
+/// The harness binary variants available to this run: (name, path). "facade" = built against
+/// the std/core facades (sync primitives are scheduling points), "plain" = built against real std.
+pub fn variants() -> Vec<(String, std::path::PathBuf)> {
+    let mut v = Vec::new();
+    for (name, var) in [("facade", "FQSIM_FACADE"), ("plain", "FQSIM_PLAIN")] {
+        if let Ok(p) = std::env::var(var) {
+            let p = std::path::PathBuf::from(p);
+            if p.is_file() {
+                v.push((name.to_string(), p));
+            }
+        }
+    }
+    if v.is_empty() {
+        let name = if cfg!(feature = "facade") { "facade" } else { "plain" };
+        v.push((name.to_string(), std::env::current_exe().expect("current_exe")));
+    }
+    v
+}
+
+pub fn variant_exe(name: &str) -> std::path::PathBuf {
+    variants()
+        .into_iter()
+        .find(|(n, _)| n == name)
+        .map(|(_, p)| p)
+        .unwrap_or_else(|| std::env::current_exe().expect("current_exe"))
+}
+
+/// One child per argument vector, each with its own executable.
+pub fn run_children_exes(exes: &[std::path::PathBuf], argvs: &[Vec<String>], max_parallel: usize) -> Vec<WorkerOut> {
     let mut results: Vec<Option<WorkerOut>> = (0..argvs.len()).map(|_| None).collect();
     let next = std::sync::atomic::AtomicUsize::new(0);
     let results_mx = std::sync::Mutex::new(&mut results);
@@ -31,7 +64,7 @@ pub fn run_children_limited(argvs: &[Vec<String>], max_parallel: usize) -> Vec<W
                 if i >= argvs.len() {
                     break;
                 }
-                let out = run_one(&exe, &argvs[i]);
+                let out = run_one(&exes[i], &argvs[i]);
                 results_mx.lock().unwrap()[i] = Some(out);
             });
         }
